@@ -315,12 +315,19 @@ def replay(c, hb):
                 fh.write(rp["src"] + "\n")
                 srcfile = fh.name
             args = {"file": srcfile, "format": rp.get("format", "jsonschema"), "seed": rp.get("seed", 1), "tier": "replay"}
-            if rp.get("source_doc") or rp.get("doc"):
+            fm = re.search(r"emitted-accepts-source-invalid kind=(\S+) .* path=(\S+)", rp.get("oracle", ""))
+            if fm and rp.get("doc"):
+                # a source-invalid document the emitted schema accepted: replayed as a fault document
+                with tempfile.NamedTemporaryFile("w", suffix=".json", dir=WORK, delete=False) as fh:
+                    fh.write(rp["doc"] + "\n")
+                    args["faultfile"] = fh.name
+                args["faultkind"], args["faultpath"], args["docs"] = fm.group(1), fm.group(2), 1
+            elif rp.get("source_doc") or rp.get("doc"):
                 with tempfile.NamedTemporaryFile("w", suffix=".json", dir=WORK, delete=False) as fh:
                     fh.write((rp.get("source_doc") or rp["doc"]) + "\n")
                     args["docfile"] = fh.name
             rows, x = run_stream(c, hb, "c12-lab", **args)
-            for f in (srcfile, args.get("docfile")):
+            for f in (srcfile, args.get("docfile"), args.get("faultfile")):
                 if f and os.path.exists(f):
                     os.remove(f)
         elif stream == "c12-bounds":
